@@ -518,8 +518,25 @@ Fixpoint all2 {A B} (f : A -> B -> bool) (la : list A) (lb : list B) : bool :=
   | _, _ => false
   end.
 
+(* the two facts about the real runtime's global object the proofs rest on (Proofs: rt_wf) *)
+Definition rt_wf_b (r : rt) : bool :=
+  forallb (fun '(k, s) => implb (s_c s) (s_w s) &&
+                          match rt_proto r !! k with None => true | Some _ => false end)
+          (map_to_list (rt_own r)).
+
+(* the iteration orders the harness chose for a call enumerate the call's arg map *)
+Definition call_wf_b (c : call) (sc : sched) : bool :=
+  match pair_args (c_args c) ∅ with
+  | None => true
+  | Some a =>
+      let a' := match c_node c with Some _ => <[NODE := JStr []]> a | None => a end in
+      enumerates (sc_set sc) a' && enumerates (sc_wipe sc) a'
+  end.
+
 Definition check_case (c : jcase) : bool :=
   let r := mk_rt (jc_own c) (jc_proto c) in
+  rt_wf_b r &&
+  forallb (fun e => match e with EvCall c sc => call_wf_b c sc | EvGc _ => true end) (jc_events c) &&
   let '(_, outs) := run r (compile_of (jc_scripts c))
                         (st_init (jc_nocache c) (jc_progcap c) (jc_nodecap c)) (jc_events c) in
   all2 (fun '(o, seen) '(x, oseen) => obs_matches o x && seen_matches seen oseen) outs (jc_obs c).
